@@ -807,5 +807,6 @@ pub fn lkind_name(k: &LKind) -> &'static str {
     match k {
         LKind::Tcp => "tcp",
         LKind::Uds => "uds",
+        LKind::TcpBindSecond => "tcp(second address of the same bind)",
     }
 }
